@@ -517,6 +517,16 @@ package netty
 //@ property C01 C02 C05 C06 C07 C09 C10 C11 C18
 //@ assume iface Executor.Exec
 //@   requires recv != nil
+// the repository's own executor does what the interface contract assumes of every executor: it
+// starts the action exactly once, on a new goroutine (never inline: the caller may hold locks)
+//@ assume functype github.com/go-netty/go-netty.Action
+//@   event
+//@   may_panic true
+//@   modifies all
+//@ func (asyncExecutor).Exec
+//@   params e action
+//@   modifies nothing
+//@   ensures starts_the_action_once_asynchronously: nemitted() == 1 && evis(0, "go action") && evarg(0, 0) == action
 //@ assume functype context.CancelFunc
 
 // what "Close has returned" leaves behind (stable: closed is monotone, a closed Done channel stays closed)
